@@ -76,6 +76,9 @@ func drawC11(t *rapid.T) c11Case {
 		if c.Own != "prior-nnp" {
 			c.Uid = 0
 		}
+		if c.Own == "seccomp-enosys" && rapid.Bool().Draw(t, "enosysFlag0") {
+			c.Flag = 0
+		}
 		if c.Own == "seccomp-einval-log" {
 			// an ordinary goroutine in a busy process; the kernel (here: an enclosing filter) refuses the log flag
 			c.Locked, c.Prior = false, 0
